@@ -20,8 +20,8 @@ LEVEL_TEXT = (
     "is handled at a position the synchronous run nulls or below one, cancellation only below a settled "
     "parent), every maximal run ends with exactly the synchronous data and the same set of nulled positions, "
     "every final response is well formed (no null at a non-null position, nulled positions hold null in data, data "
-    "null only if an error reached the root; the clause for error positions below another nulled position is "
-    "stated as async_wf_full and not proved), runs terminate (strictly decreasing measure), a serial root "
+    "null only if an error reached the root; every position where an error originated, was raised or was handled "
+    "lies at or below a null in data: async_wf_error_paths), runs terminate (strictly decreasing measure), a serial root "
     "starts field j only after fields i<j completed and a completed field has no live task left, and every move "
     "of the trace monitor is a transition of the system (monitor_sound). The implementation is tied "
     "to the model on explored schedules only: a harness event loop resolves every awaitable (field results, "
@@ -84,7 +84,7 @@ ASSUMPTIONS = [
 ]
 EXPLANATION = (
     "Theorems: async_invariant (+done_is_denotation, errors_are_predicted, cancellation_only_below_error), "
-    "schedule_independent (+assignment_independent, agrees_with_synchronous), async_wf_partial, mutation_serial "
+    "schedule_independent (+assignment_independent, agrees_with_synchronous), async_wf, async_wf_error_paths, mutation_serial "
     "(+mutation_start_after_completion, completed_field_is_quiet, mutation_schedule_independent), run_terminates, "
     "serial_run_terminates, monitor_sound over Proc. "
     "Correspondence: recorded traces of the implementation under a controlled event loop are accepted by the "
